@@ -126,11 +126,9 @@ def independent_verify(blob, sf):
     H = {"md5": hashes.MD5, "sha1": hashes.SHA1, "sha224": hashes.SHA224, "sha256": hashes.SHA256, "sha384": hashes.SHA384,
          "sha512": hashes.SHA512}[alg]
     if si["signed_attrs"].native:
-        md = None
-        for a in si["signed_attrs"]:
-            if a["type"].dotted == "1.2.840.113549.1.9.4":
-                md = a["values"][0].native
-        if md != hashlib.new(alg, sf).digest():
+        mds = [a for a in si["signed_attrs"] if a["type"].dotted == "1.2.840.113549.1.9.4"]
+        # exactly one messageDigest attribute with exactly one value (RFC 5652, 11.2), equal to the digest of the .SF
+        if len(mds) != 1 or len(mds[0]["values"]) != 1 or mds[0]["values"][0].native != hashlib.new(alg, sf).digest():
             return None, None
         signed = b"\x31" + si["signed_attrs"].dump()[1:]
     else:
@@ -277,14 +275,61 @@ def reorder_attrs_bytes(blob, region):
     return new
 
 
-def tamper(p, sig_name, region, off, val, max_sdk=None, others_first=False, twin=None, prior=None, replace=None):
+def _der_len(n):
+    if n < 0x80:
+        return bytes([n])
+    b = n.to_bytes((n.bit_length() + 7) // 8, "big")
+    return bytes([0x80 | len(b)]) + b
+
+
+def reencoded_signatures(p):
+    """Encoding-level alterations of the signature value: {name: new signature value}.  The value is altered (other bytes,
+    other length) although a lenient decoder would read the same numbers from it."""
+    from asn1crypto import cms
+    sig = cms.ContentInfo.load(p["blob"])["content"]["signer_infos"][0]["signature"].native
+    out = {"append-00": sig + b"\x00", "append-junk": sig + b"\x30\x03\x02\x01\x01", "truncate-1": sig[:-1],
+           "prepend-00": b"\x00" + sig}
+    if p["kalg"] in ("dsa", "ec") and len(sig) > 8 and sig[0] == 0x30:
+        # SEQUENCE { INTEGER r, INTEGER s }
+        try:
+            hl = 2 if sig[1] < 0x80 else 2 + (sig[1] & 0x7F)
+            body = sig[hl:]
+            assert body[0] == 0x02 and body[1] < 0x80
+            r_ = body[2:2 + body[1]]
+            rest = body[2 + body[1]:]
+            assert rest[0] == 0x02
+            n_ = len(body)               # the same length, written with one length byte more than DER allows
+            out["long-form-length"] = b"\x30" + (b"\x81" + bytes([n_]) if n_ < 0x80 else
+                                                 b"\x82\x00" + bytes([n_]) if n_ < 0x100 else
+                                                 b"\x83\x00" + n_.to_bytes(2, "big")) + body
+            body2 = b"\x02" + _der_len(len(r_) + 1) + b"\x00" + r_ + rest
+            out["zero-padded-r"] = b"\x30" + _der_len(len(body2)) + body2
+            body3 = body + b"\x05\x00"
+            out["extra-member"] = b"\x30" + _der_len(len(body3)) + body3
+            out["indefinite-length"] = b"\x30\x80" + body + b"\x00\x00"
+        except (AssertionError, IndexError):
+            pass
+    return {k: v for k, v in out.items() if v != sig}
+
+
+def block_with_signature(blob, newsig):
+    """the block re-serialised with another signature value (only the lengths on the path to the value change)"""
+    from asn1crypto import cms
+    ci = cms.ContentInfo.load(blob)
+    ci["content"]["signer_infos"][0]["signature"] = newsig
+    return ci.dump()
+
+
+def tamper(p, sig_name, region, off, val, max_sdk=None, others_first=False, twin=None, prior=None, replace=None, new_entry=None):
     """One altered byte, archive re-written, then a short history of queries on ONE APK object:
     (optionally the untouched blocks first,) the tampered block through get_certificate_der(block, max_sdk_version),
     then get_certificates_v1()."""
     from androguard.core.apk import APK
     ename, data, lo, hi = p["regions"][region]
     d = bytearray(data)
-    if replace is not None:
+    if new_entry is not None:
+        d = bytearray(new_entry)     # the whole entry re-serialised (its length may differ)
+    elif replace is not None:
         d[lo:hi] = replace           # an encoding-level alteration of the whole region (same length)
     else:
         d[off] = val
@@ -393,13 +438,13 @@ def invalid_block_case(seed, apk_name, sig_name, gen_names):
             if prior:
                 fired["history:other-archive-processed-first"] = fired.get("history:other-archive-processed-first", 0) + 1
             if res == "certificate":
-                cur = problems.get("C32:accepted:invalid-block")
+                cur = problems.get("C32:accepted:invalid-block" + core.opt_suffix())
                 # keep the example whose history is most explicit: an acceptance seen with an empty history may rest on what
                 # earlier cases left behind in this worker process and would then not replay from a clean state
                 better = cur is None or (not cur["fault"][6] and prior) or (prior and len(prior) < len(cur["fault"][6]))
                 # (the shortest non-empty history: long ones may depend on cache sizes / eviction order)
                 if better:
-                    problems["C32:accepted:invalid-block"] = {
+                    problems["C32:accepted:invalid-block" + core.opt_suffix()] = {
                         "msg": f"{apk_name} {sig_name}: the block's signature does not verify (independent check) but a "
                                f"certificate is reported (max_sdk_version={max_sdk}, archives processed before: {prior})",
                         "fault": ["invalid-block", 0, 0, max_sdk, False, None, list(prior)]}
@@ -409,13 +454,63 @@ def invalid_block_case(seed, apk_name, sig_name, gen_names):
             "case": case, "skipped": {}, "extra": {"nontrivial_faults": n, "blocks": 1, "blocks_fully_enumerated": 0, "apks": [apk_name]}}
 
 
+_INDEX = {}
+
+
+def run_index(seed):
+    """position of this run in the batch (None outside a batch): the first runs of every batch sweep the invalid blocks"""
+    if not _INDEX:
+        base = core.base_seed()
+        for i in range(4096):
+            _INDEX[core.derive_seed(PROP, base, i)] = i
+    return _INDEX.get(seed)
+
+
+def invalid_blocks():
+    """(archive, block) pairs whose signature does not verify independently: the forged blocks of corpus/apksig-gen and
+    apksig's negative samples"""
+    out = []
+    for name, sigs in candidates():
+        if "forged" in name or "wrong-" in name or "missing-digest" in name:
+            out += [(name, s) for s in sigs]
+    return out
+
+
+OPT_SHARE = 0.15     # share of the runs that execute in an interpreter started with -O / -OO
+
+
 def worker(seed):
+    """one run; a seeded share of the runs executes in a child interpreter started with -O or -OO (checks written as `assert`
+    or under `if __debug__:` do not exist there)"""
+    if not core.child_opt_level() and not os.environ.get("VERIF_NO_OPT_CHILD"):
+        ar = core.rng(seed, "ambient")
+        if ar.random() < OPT_SHARE:
+            lvl = ar.choice([1, 1, 2])
+            out = core.in_child_interpreter("checks.c32", "worker", [seed], lvl)
+            out["faults"]["ambient:interpreter -%s" % ("O" * lvl)] = 1
+            if out.get("case"):
+                out["case"]["opt"] = lvl
+            return out
+    return _worker_here(seed)
+
+
+def _worker_here(seed):
     core.use_repo()
     tier = os.environ.get("VERIF_TIER_NAME", "quick")
     r = core.rng(seed, "workload")
     cands = candidates()
     if not cands:
         raise HarnessError("no v1-signed APK in corpus/apksig")
+    idx = run_index(seed)
+    inv = invalid_blocks()
+    if idx is not None and idx < len(inv):
+        # sweep: every batch queries every invalid block once (with seeded histories), so that one of them is never
+        # missed by the draw; blocks that do verify after all are handled as ordinary blocks below
+        apk_name, sig_name = inv[idx]
+        p, why = plan(apk_name, sig_name)
+        if p is None and why == "pristine-block-does-not-verify-independently":
+            return invalid_block_case(seed, apk_name, sig_name,
+                                      [c[0] for c in candidates() if c[0].startswith("gen-") and c[0] != apk_name])
     k = r.random()
     if k < 0.2:                    # the few blocks with signed attributes would otherwise rarely be drawn
         cands = [c for c in cands if "signed-attrs" in c[0]] or cands
@@ -474,10 +569,48 @@ def worker(seed):
                 nontriv += 1
                 fired["signed-attrs:members-reordered"] = fired.get("signed-attrs:members-reordered", 0) + 1
                 if c is not None:
-                    problems.setdefault(f"C32:accepted:signed-attrs-reordered:{p['kalg']}",
+                    problems.setdefault(f"C32:accepted:signed-attrs-reordered:{p['kalg']}" + core.opt_suffix(),
                                         {"msg": f"{apk_name} {sig_name}: the signed attributes were re-ordered (bytes altered, same set) and a "
                                                 f"certificate is still reported ({detail})",
                                          "fault": ["signed-attrs", "reorder", 0, max_sdk, False, None, None]})
+    if "sigvalue" in p["regions"]:
+        try:
+            # soundness guard: re-serialising the block with its OWN signature value must give a block that still verifies
+            from asn1crypto import cms as _cms
+            same = block_with_signature(p["blob"], _cms.ContentInfo.load(p["blob"])["content"]["signer_infos"][0]["signature"].native)
+        except Exception:
+            same = None
+        ok = False
+        if same is not None:
+            try:
+                ok = independent_verify(same, p["sf"])[0] == p["cert"] and \
+                    tamper(p, sig_name, "sigvalue", 0, 0, None, False, None, None, new_entry=same)[0] is not None
+            except Exception:
+                ok = False
+        if not ok:
+            skipped["block-does-not-survive-re-serialisation"] = 1
+        else:
+            for ename_, newsig in sorted(reencoded_signatures(p).items()):
+                try:
+                    nb = block_with_signature(p["blob"], newsig)
+                    still = independent_verify(nb, p["sf"])[0]
+                except Exception:
+                    still = None
+                if still is not None:
+                    skipped["re-encoded-signature-still-verifies-independently"] = \
+                        skipped.get("re-encoded-signature-still-verifies-independently", 0) + 1
+                    continue
+                for max_sdk in (None, 23):
+                    c, detail, d2 = tamper(p, sig_name, "sigvalue", 0, 0, max_sdk, False, None, None, new_entry=nb)
+                    n += 1
+                    nontriv += 1
+                    fired["sigvalue:re-encoded:" + ename_] = fired.get("sigvalue:re-encoded:" + ename_, 0) + 1
+                    if c is not None:
+                        problems.setdefault(f"C32:accepted:sigvalue-reencoded:{p['kalg']}" + core.opt_suffix(),
+                                            {"msg": f"{apk_name} {sig_name}: the signature value was altered ({ename_}: "
+                                                    f"{len(newsig)} bytes instead of {p['regions']['sigvalue'][3] - p['regions']['sigvalue'][2]}) "
+                                                    f"and a certificate is still reported ({detail})",
+                                             "fault": ["sigvalue", "enc:" + ename_, 0, max_sdk, False, None, None]})
     for region in sorted(p["regions"]):
         ename, data, lo, hi = p["regions"][region]
         start = fr.randrange(stride) if stride > 1 else 0
@@ -512,7 +645,7 @@ def worker(seed):
                     skipped[eq] = skipped.get(eq, 0) + 1
                     continue
                 nontriv += 1
-                sig = f"C32:accepted:{region}:{p['kalg']}"
+                sig = f"C32:accepted:{region}:{p['kalg']}" + core.opt_suffix()
                 if sig not in problems:
                     problems[sig] = {"msg": f"{apk_name} {sig_name}: byte {off - lo} of {region} changed {orig:#04x} -> {val:#04x} "
                                             f"and a certificate is still reported ({detail})",
@@ -537,7 +670,7 @@ def digest_for_index(base, i):
 def _check(apk_name, sig_name, fault):
     if fault and fault[0] == "invalid-block":
         res = _invalid_block_query(apk_name, sig_name, fault[6], fault[3])
-        return ("C32:accepted:invalid-block" if res == "certificate" else None), res
+        return ("C32:accepted:invalid-block" + core.opt_suffix() if res == "certificate" else None), res
     p, why = plan(apk_name, sig_name)
     if p is None:
         return None, why
@@ -548,28 +681,46 @@ def _check(apk_name, sig_name, fault):
         c, detail, d2 = tamper(p, sig_name, region, 0, 0, max_sdk, False, None, None, replace=new)
         if c is None:
             return None, detail
-        return f"C32:accepted:signed-attrs-reordered:{p['kalg']}", detail
+        return f"C32:accepted:signed-attrs-reordered:{p['kalg']}" + core.opt_suffix(), detail
+    if isinstance(roff, str) and roff.startswith("enc:"):
+        newsig = reencoded_signatures(p).get(roff[4:])
+        if newsig is None:
+            return None, "no-such-re-encoding"
+        nb = block_with_signature(p["blob"], newsig)
+        c, detail, d2 = tamper(p, sig_name, region, 0, 0, max_sdk, False, None, None, new_entry=nb)
+        if c is None:
+            return None, detail
+        return f"C32:accepted:sigvalue-reencoded:{p['kalg']}" + core.opt_suffix(), detail
     c, detail, d2 = tamper(p, sig_name, region, lo + roff, val, max_sdk, others_first, twin, prior)
     if c is None:
         return None, detail
     if region != "sf" and equivalent(region, p["blob"], d2):
         return None, "equivalent"
-    return f"C32:accepted:{region}:{p['kalg']}", detail
+    return f"C32:accepted:{region}:{p['kalg']}" + core.opt_suffix(), detail
 
 
 def minimise(case, sig):
-    return {"seed": case["seed"], "apk": case["apk"], "sig": case["sig"], "fault": case["by_sig"][sig]}, \
+    return {"seed": case["seed"], "apk": case["apk"], "sig": case["sig"], "fault": case["by_sig"][sig], "opt": case.get("opt", 0)}, \
         {"note": "a single-byte fault is minimal"}
+
+
+def _check_entry(apk_name, sig_name, fault):
+    core.use_repo()
+    return _check(apk_name, sig_name, fault)
 
 
 def write_replay(case, sig, msg, info):
     core.use_repo()
     if "by_sig" in case:
-        case = {"seed": case["seed"], "apk": case["apk"], "sig": case["sig"], "fault": case["by_sig"][sig]}
-    got, detail = core.isolated(_check, case["apk"], case["sig"], case["fault"])
+        case = {"seed": case["seed"], "apk": case["apk"], "sig": case["sig"], "fault": case["by_sig"][sig], "opt": case.get("opt", 0)}
+    if case.get("opt"):
+        got, detail = core.in_child_interpreter("checks.c32", "_check_entry", [case["apk"], case["sig"], case["fault"]], case["opt"])
+    else:
+        got, detail = core.isolated(_check, case["apk"], case["sig"], case["fault"])
     if got != sig:
         return None
-    payload = {"property": PROP, "engine": "iosim-archive", "seed": case["seed"], "config": {}, "apk": case["apk"],
+    payload = {"property": PROP, "engine": "iosim-archive", "seed": case["seed"], "config": {"python_optimize": case.get("opt", 0)},
+               "apk": case["apk"],
                "block": case["sig"], "faults": [case["fault"]], "ops": [["APK(raw).get_certificate_der", case["sig"]]],
                "decisions": [], "violation": {"class": "accepted", "signature": sig, "message": msg},
                "digest": core.digest_of([sig, detail]), "minimised_from": info}
@@ -593,6 +744,10 @@ def run(tier):
 
 def replay(path):
     def rerun(rp):
-        got, detail = _check(rp["apk"], rp["block"], rp["faults"][0])
+        opt = (rp.get("config") or {}).get("python_optimize", 0)
+        if opt:
+            got, detail = core.in_child_interpreter("checks.c32", "_check_entry", [rp["apk"], rp["block"], rp["faults"][0]], opt)
+        else:
+            got, detail = _check(rp["apk"], rp["block"], rp["faults"][0])
         return ({got} if got else set()), core.digest_of([got, detail]), [f"detail: {detail}"]
     return driver.replay_common(__import__("checks.c32", fromlist=["x"]), path, rerun)
